@@ -187,3 +187,43 @@ def prove_tensor_eq(c, clause, got: VTensor, want: VTensor, extra=None):
     lhs, rhs = E.coerce_pair(lhs, rhs)
     hyp = z3.And(*rng) if rng else z3.BoolVal(True)
     c.prove(clause + ".elem", z3.Implies(hyp, lhs == rhs))
+
+
+TRIL = "_MultivariateNormal__unbroadcasted_scale_tril"
+
+
+def seat_cached_tril(c, o):
+    """put the distribution in the state 'Cholesky factor already computed and cached' (as after a Cholesky-path
+    log_prob / rsample): the cached factor is the factor of the covariance (representation invariant)"""
+    from engine.optable_torch import m_cholesky
+    L = m_cholesky(o.fields["_covar"], c.it, c.ctx, [], {})
+    L = L.copy(is_linop=False, linop_class=None)
+    o.fields[TRIL] = L
+    return L
+
+
+def prove_rep_invariant(c, res, tag):
+    """representation invariant of a (lazy) MultivariateNormal: a cached scale-tril, if present, is the Cholesky
+    factor of the covariance the object carries"""
+    import z3 as _z3
+    from engine.optable_torch import CHOL, mat_lambda
+    from engine.values import NONE as _NONE
+    tril = res.fields.get(TRIL, _NONE)
+    if tril is _NONE:
+        c.prove(f"{tag}.rep_invariant", _z3.BoolVal(True))
+        return
+    cov = res.fields["_covar"]
+    lead = cov.dims[:-2]
+    if len(tril.dims) != len(cov.dims):
+        c.prove(f"{tag}.rep_invariant", _z3.BoolVal(False), why="cached scale_tril has a different rank than the covariance")
+        return
+    bidx = fresh_in_range(c, [a for d in lead for a in d.atoms], "rb")
+    n = cov.dims[-1].size
+    i, j = fresh_in_range(c, [n, n], "ri")
+    grouped, p = [], 0
+    for d in lead:
+        k = len(d.atoms)
+        grouped.append(bidx[p: p + k] if k > 1 else bidx[p])
+        p += k
+    want = _z3.If(j <= i, CHOL(mat_lambda(cov, grouped), n, i, j), _z3.RealVal(0))
+    c.prove(f"{tag}.rep_invariant", _z3.And(tril.dims[-1].size == n, tril.dims[-2].size == n, tril.at_dims(grouped + [i, j]) == want))
